@@ -26,7 +26,7 @@ COMPONENTS = {"real": ["ECAgent.Core.Environment.add_agent / remove_agent", "Sys
                        "deregister_component / get_components / __getitem__", "Agent.add_component / remove_component",
                        "SpaceWorld / DiscreteWorld / LineWorld / GridWorld add_agent / remove_agent"],
               "stub": ["component classes and agents are harness-defined"]}
-PROBES = ["position_subclass_component", "pool_deleted_and_recreated", "leave_from_middle", "two_models_same_type", "spatial_join_leave", "rejoin",
+PROBES = ["population_of_dozens_oscillating", "position_subclass_component", "pool_deleted_and_recreated", "leave_from_middle", "two_models_same_type", "spatial_join_leave", "rejoin",
           "attach_after_leaving", "subclass_component", "resident_touch_run", "manual_register", "reject_join", "reject_leave",
           "model_completed_then_join_leave", "falsy_component_emptied", "ops_from_inside_a_timestep", "agent_is_an_environment", "agent_class_with_class_components", "deprecated_camelcase_spelling", "component_cloned_from_a_registered_one", "second_environment_bound_to_the_same_model"]
 TECHNIQUE = "deterministic simulation: seeded join/leave/attach/detach histories interleaved over several live models vs a per-model mirror reference; known-finding classifier for resident attach/detach"
@@ -185,8 +185,33 @@ def generate(rng, tier):
             o_ = ({"m": mi, "op": "attach", "k": k, "t": rng.randrange(NT)} if r < 0.3 else
                   {"m": mi, "op": "join", "k": k, "frac": [0.5, 0.5, 0.5]} if r < 0.7 else {"m": mi, "op": "leave", "k": k})
             ops.insert(rng.randint(0, len(ops)), o_)
+    crowd = None
+    cands = [mi for mi in range(nm) if mi not in side_envs]
+    if cands and rng.random() < 0.07:
+        # a population that oscillates around a few dozen holders of one type: founders join, many leave, settlers arrive,
+        # leavers come back, settlers and founders leave (the extra agents have indices beyond nag[mi])
+        mi, n, t = rng.choice(cands), rng.randint(38, 46), rng.randrange(NT)
+        base = nag[mi]
+        crowd = {"m": mi, "n": n}
+
+        def J(j):
+            return {"m": mi, "op": "join", "k": base + j, "frac": [0.5, 0.5, 0.5]}
+
+        def L(j):
+            return {"m": mi, "op": "leave", "k": base + j}
+        first = rng.randint(33, n - 4)
+        leavers = rng.sample(range(first), rng.randint(first - 28, first - 8))
+        settlers = list(range(first, n))
+        block = [J(j) for j in range(first)] + [L(j) for j in leavers] + [J(j) for j in settlers[:2]]
+        back = rng.sample(leavers, min(len(leavers), 34 - (first - len(leavers) + 2) + rng.randint(0, 3)))
+        block += [J(j) for j in back] + [{"m": mi, "op": "query", "t": t}, L(settlers[0])]
+        stayed = [j for j in range(first) if j not in leavers]
+        block += [L(j) for j in rng.sample(stayed, min(3, len(stayed)))] + [J(j) for j in leavers if j not in back][:4]
+        block += [L(j) for j in rng.sample(back, min(3, len(back)))] + [{"m": mi, "op": "query", "t": t}]
+        cut = rng.randint(0, len(ops))
+        ops = [{"m": mi, "op": "attach", "k": base + j, "t": t} for j in range(n)] + ops[:cut] + block + ops[cut:]
     return {"worlds": worlds, "agents": nag, "touch": touch, "ops": ops, "envagents": envagents, "wolves": wolves,
-            "side_envs": side_envs}
+            "side_envs": side_envs, "crowd": crowd}
 
 
 class M:
@@ -220,6 +245,12 @@ def execute(sc, ctx):
                 mm_.side_idx.add(len(mm_.agents))
                 mm_.agents.append(Agent(f"m{mi_}s{j_}", mm_.model))
             ctx.probe("second_environment_bound_to_the_same_model")
+    cr_ = sc.get("crowd")
+    if cr_ and 0 <= cr_["m"] < len(models) and models[cr_["m"]].side is None:
+        mm_ = models[cr_["m"]]
+        for j_ in range(int(cr_["n"])):
+            mm_.agents.append(Agent(f"m{cr_['m']}c{j_}", mm_.model))
+        ctx.probe("population_of_dozens_oscillating")
     if sc.get("wolves"):
         ctx.probe("agent_class_with_class_components")
         for T in (CA, CB, CF):
